@@ -70,6 +70,36 @@ pub fn run(l: &[i128]) -> Vec<i128> {
                 Err(_) => vec![-1],
             }
         }
+        Some(9) if l.len() >= 5 => {
+            // an 8-bit grey (ct 0) or RGB (ct 2) file with a tRNS colour key: the keyed colour is fully transparent
+            let ct = if l[1] == 0 { png::ColorType::Grayscale } else { png::ColorType::Rgb };
+            let nk = if l[1] == 0 { 1 } else { 3 };
+            let (w, h) = (l[2] as u32, l[3] as u32);
+            if l.len() < 4 + nk {
+                return vec![-3];
+            }
+            // tRNS for grey / RGB holds 16-bit samples
+            let key: Vec<u8> = l[4..4 + nk].iter().flat_map(|v| vec![0u8, *v as u8]).collect();
+            let data: Vec<u8> = l[4 + nk..].iter().map(|x| *x as u8).collect();
+            let mut file = Vec::new();
+            {
+                let mut enc = png::Encoder::new(&mut file, w, h);
+                enc.set_color(ct);
+                enc.set_depth(png::BitDepth::Eight);
+                enc.set_trns(key);
+                let mut wr = match enc.write_header() {
+                    Ok(v) => v,
+                    Err(_) => return vec![-3],
+                };
+                if wr.write_image_data(&data).is_err() {
+                    return vec![-3];
+                }
+            }
+            match Pixmap::decode_png(&file) {
+                Ok(p) => px_out(&p),
+                Err(_) => vec![-1],
+            }
+        }
         Some(5) => {
             let data: Vec<u8> = l[1..].iter().map(|x| *x as u8).collect();
             let a = Pixmap::decode_png(&data).is_ok() as i128;
